@@ -89,3 +89,28 @@ func specPow2D(n int32) bool {
 //@ func estimateJumpSize
 //@ props C03 C04
 //@ ensures[dom] result0 == 2 || result0 == 3 || result0 == 5 || result0 == 6
+
+// The data handlers advance LOC by exactly the number of bytes they hand to
+// emitCommand (1, 2 or 4 per value): stated as invariants of their loops over the
+// local accumulators, because the emitted values leave pass 1 only as text.
+
+//@ func processDB
+//@ props C05 C03
+//@ requires env != nil && env.Client != nil
+//@ loop 0 invariant loc == int32(len(ocodes))
+//@ loop 1 invariant loc == int32(len(ocodes)+len(strVal)-iter)
+//@ loop 2 invariant loc == int32(len(ocodes)+len(strVal)-iter)
+//@ loop 3 invariant loc == int32(len(ocodes)+len(strVal)-iter)
+//@ assigns Pass1.LOC, ocodeClient.Ocodes
+
+//@ func processDW
+//@ props C05 C03
+//@ requires env != nil && env.Client != nil
+//@ loop 0 invariant loc == int32(2*len(ocodes))
+//@ assigns Pass1.LOC, ocodeClient.Ocodes
+
+//@ func processDD
+//@ props C05 C03
+//@ requires env != nil && env.Client != nil
+//@ loop 0 invariant loc == int32(4*len(ocodes))
+//@ assigns Pass1.LOC, ocodeClient.Ocodes
